@@ -186,16 +186,56 @@ func c13GC(x *engine.X) {
 	shape := shapes[x.Pick(len(shapes), "shape")]
 	wantR := shape != "write"
 	wantW := shape != "read"
-	ioc, err := sonic.NewIO()
-	if err != nil {
-		engine.HarnessError("NewIO: %v", err)
+	// History: none, or an earlier object A (of any kind) on the same IO was closed before the object under test B
+	// was created — so that B's descriptor number is the one A had — and A is closed AGAIN once B's operations are
+	// in flight. A's second Close must not touch anything of B: neither the descriptor (the close family checks
+	// that) nor B's registration with the IO, which is what keeps B alive.
+	hist := x.Pick(1+len(c13Kinds), "an earlier object was closed before, and is closed again afterwards")
+	var ioc *sonic.IO
+	var g *gcObj
+	if hist == 0 {
+		var err error
+		ioc, err = sonic.NewIO()
+		if err != nil {
+			engine.HarnessError("NewIO: %v", err)
+		}
+		g = gcCreate(x, ioc, kind, wantR, wantW)
+	} else {
+		e := newC13Env(x)
+		ioc = e.ioc
+		// descriptors that gcCreate allocates before B's own one: park as many low numbers so that B lands on A's
+		var fillers []int
+		for i := 0; i < map[string]int{"tcp": 1, "adp": 2, "fifo-r": 2}[kind]; i++ {
+			fd, _ := syscall.Dup(0)
+			fillers = append(fillers, fd)
+		}
+		a := c13Create(e, c13Kinds[hist-1])
+		a.close()
+		for _, fd := range fillers {
+			syscall.Close(fd)
+		}
+		g = gcCreate(x, ioc, kind, wantR, wantW)
+		reused := false
+		for _, fd := range a.fds {
+			reused = reused || fd == g.fd
+		}
+		idBefore := kern.Identity(g.fd)
+		a.close()
+		if a.owner != nil {
+			a.owner()
+		}
+		x.Note("history: %s closed, %s created on descriptor %d (reuses the number: %v), %s closed again", a.kind, kind, g.fd, reused, a.kind)
+		if id := kern.Identity(g.fd); id != idBefore {
+			x.Fail("fd/"+a.kind+".Close/foreign-close", "the second Close of a %s closed descriptor %d, which now belongs to a %s", a.kind, g.fd, kind)
+		}
 	}
-	g := gcCreate(x, ioc, kind, wantR, wantW)
 	lsa, _ := syscall.Getsockname(g.fd)
 	collected := false
 	x.Defer(func() {
 		g.cleanup()
-		ioc.Close()
+		if hist == 0 {
+			ioc.Close()
+		}
 	})
 	x.Note("gc/%s/%s", kind, shape)
 	gced := false
